@@ -13,7 +13,7 @@ RULE = ('integers with 1..15 digits and decimals with <=15 significant digits (b
         '(marks from SUPPORTED_CULTURES; zh-cn: ","/".") x {alone, carrier sentence (not zh/ja)}; the same literal + "%" to the percentage model. '
         'non-trivial = the model returned an entity; distinct = distinct (culture, model, query).')
 EXHAUSTIVE = False
-JOB_TIMEOUT = 1800
+JOB_TIMEOUT = 5400
 # carriers that contain a phrase of the culture's live ambiguity filter (en 'that one', zh 大陆 / 队伍 / 十足): the filter must drop
 # the ambiguous word only, never the literal elsewhere in the sentence
 CONTEXT_CARRIERS = {'en-us': ['that one costs {} dollars', 'which one is {} off', 'the one with {} points'],
